@@ -56,7 +56,7 @@ struct Gen {
 		auto inside = [&] { return rng.chance(0.85) ? rng.range(head + 1 < sh.n ? head + 1 : head, head + sh.st[size_t(head)].size - 1) : rng.range(1, sh.n - 1); };
 		a.b = int16_t(inside()); a.c = int16_t(rng.chance(0.1) ? a.b : inside());
 		a.kind = int8_t(kind(true));
-		if (has(CAP_PAYLOAD) && rng.chance(is("C14") ? 0.7 : 0.3)) { a.withPayload = true; a.payload = payload(); }
+		if (has(CAP_PAYLOAD) && rng.chance(is("C14") ? 0.5 : 0.3)) { a.withPayload = true; a.payload = payload(); }
 		return a;
 	}
 	Action planEdit() {
@@ -266,6 +266,7 @@ RunPlan generate(uint64_t seed, const std::string& lens, const std::string& shap
 	if (caps & CAP_BUILTIN_RNG) { w[OP_CRASH] = 0; w[OP_RESTART] = 0; }
 	if (is("C05")) { w[OP_REACT] = 30; w[OP_QUERY] = 18; w[OP_UPDATE] = 20; }
 	if (is("C06") || is("C07") || is("C19")) { w[OP_EXIT] = manual ? 7 : 0; w[OP_ENTER] = manual ? 9 : 0; w[OP_PLAN_APPEND] = plans ? 26 : 0; w[OP_SUCCEED] = plans ? 12 : 0; w[OP_FAIL] = plans ? 5 : 0; w[OP_PLAN_REMOVE] = plans ? 6 : 0; w[OP_PLAN_CLEAR] = plans ? 4 : 0; }
+	if (is("C14")) { w[OP_PLAN_APPEND] = plans ? 18 : 0; w[OP_SUCCEED] = plans ? 12 : 0; w[OP_PLAN_CLEAR] = plans ? 3 : 0; w[OP_PLAN_REMOVE] = plans ? 3 : 0; }    // payload-carrying and payload-less tasks through recycled pool slots
 	if (is("C16")) { w[OP_LOGGER] = logc ? 6 : 0; w[OP_UPDATE] = 40; }
 	if (is("C08")) { w[OP_SNAPSHOT] = 14; w[OP_PERTURB] = 10; w[OP_DELIVER] = 20; }
 	if (is("C12")) { w[OP_IMMEDIATE] = 30; w[OP_REQUEST] = 25; }
@@ -309,7 +310,29 @@ RunPlan generate(uint64_t seed, const std::string& lens, const std::string& shap
 
 // ---- minimisation: ddmin over operations, then simplification inside operations ----------------------------------------------
 
+// a reduced plan must stay inside the documented input domain: every Utilitarian / Random region keeps a positive utility sum among its
+// top-rank sub-states in every operation (dropping the resolver that ranked the positive sub-state highest would leave only zeros on top)
+static bool inDomain(const RunPlan& p) {
+	const NodeFactory* f = findFactory(p.wp.shape, p.wp.config);
+	if (!f) return true;
+	const Shape& sh = *f->desc;
+	for (auto& op : p.ops) {
+		if (op.res.empty()) continue;
+		for (int r = 0; r < sh.n; ++r) {
+			if (!sh.isCompo(r) || (sh.st[size_t(r)].strategy != 3 && sh.st[size_t(r)].strategy != 4)) continue;
+			int top = -1000000; double sum = 0;
+			auto rk = [&](int s) { for (auto& x : op.res) if (x.state == s) return int(x.rank); return 0; };
+			auto ut = [&](int s) { for (auto& x : op.res) if (x.state == s) return double(x.utility); return 1.0; };
+			for (int c : sh.kids[size_t(r)]) top = std::max(top, sh.st[size_t(c)].headless ? 0 : rk(c));
+			for (int c : sh.kids[size_t(r)]) if ((sh.st[size_t(c)].headless ? 0 : rk(c)) == top) sum += sh.st[size_t(c)].headless ? 1.0 : ut(c);
+			if (!(sum > 0)) return false;
+		}
+	}
+	return true;
+}
+
 static bool failsSame(const RunPlan& p, const std::string& oracle, int* reruns) {
+	if (!inDomain(p)) return false;
 	++*reruns;
 	RunResult r = execute(p, nullptr);
 	for (auto& v : r.violations) if (v.oracle == oracle) return true;
